@@ -222,6 +222,7 @@ def unlink_events(body, retired_local, an):
     klass = "value" if is_value else ("bin" if only_bin else "node")
     mine = fl.copies_of(retired_local)
     ev = {}
+    edges = set()
     for c in body.calls:
         if body.is_cleanup(c.b):
             continue
@@ -238,14 +239,32 @@ def unlink_events(body, retired_local, an):
             elif klass == "value" and (f & VALUE_FIELDS):
                 ev[c.point] = "%s of the value slot at %s" % (w[1], c.span)
         elif s.endswith("TreeBin::remove_tree_node") and klass != "bin":
-            # unlinks the node passed as its argument (and, for a value, the node that holds it)
+            # unlinks the node passed as its argument (and, for a value, the node that holds it) -- completely only when it does not ask
+            # for untreeify (false result); on the true edge the node is still reachable through the tree until the bin is replaced
             pl = op_root(c.args[1]) if len(c.args) > 1 else None
             if klass == "value" or (pl is not None and (fl.copies_of(pl) & mine)):
-                ev[c.point] = "remove_tree_node at %s" % c.span
-    return ev, tabs
+                dl = c.dst_local()
+                found_edge = False
+                for blk in range(len(body.blocks)):
+                    cd = cond_of(body, blk)
+                    if cd and ((cd["kind"] == "bool" and dl is not None and cd["local"] in fl.copies_of(dl)) or (cd["kind"] == "call" and cd["call"].b == c.b)):
+                        edges.add((blk, cd["false"]))
+                        found_edge = True
+                if not found_edge:
+                    ev[c.point] = "remove_tree_node at %s" % c.span
+    # inside the tree-restructuring routine itself a tree node is fully unlinked only once the tree links are rewritten (unlock_root)
+    from .rules_c18 import root_lock_fns
+    acq, rel = root_lock_fns(body.facts)
+    rel_ids = {x.id for x in rel}
+    unlocks = [c for c in body.calls if c.resolved in rel_ids and not body.is_cleanup(c.b)]
+    if unlocks and klass == "node":
+        ev = {c.point: "unlock_root (tree links rewritten) at %s" % c.span for c in unlocks}
+        ev.update({c.point: "store_bin" for c in body.calls if callee_str(c).endswith("raw::Table::store_bin")})
+        edges = set()
+    return ev, tabs, edges
 
 
-def realisable_without(body, chain, goal, blockers):
+def realisable_without(body, chain, goal, blockers, blocker_edges=()):
     """is there a CFG path entry -> goal that executes the chain's def points in order and never executes a blocker?"""
     pts = [p for p in chain if not (isinstance(p, tuple) and p and p[0] == "arg")]
     k = len(pts)
@@ -261,7 +280,7 @@ def realisable_without(body, chain, goal, blockers):
             ns = stage + 1
         if pt == goal and ns == k:
             return True
-        for nx in succ_points(body, pt, unwind=False):
+        for nx in succ_points(body, pt, unwind=False, avoid_edges=set(blocker_edges) if blocker_edges else None):
             st = (nx, ns)
             if st not in seen:
                 seen.add(st)
@@ -289,7 +308,7 @@ def rule_m2(ctx, facts):
                 ctx.inst("M2", b, what, c.span, True, "operand is the result of %s at %s: the producing operation is the unlink"
                          % (callee_str(by_constr[0]).rsplit("::", 1)[-1], by_constr[0].span))
                 continue
-            ev, tabs = unlink_events(b, x, an)
+            ev, tabs, uedges = unlink_events(b, x, an)
             chains = value_chains(b, x)
             bad = None
             for ch in chains:
@@ -298,12 +317,12 @@ def rule_m2(ctx, facts):
                     oc = b.call_at(ch[0][0])
                     if oc and is_reclaim_atomic(oc) in ("swap", "compare_exchange"):
                         continue
-                if realisable_without(b, ch, c.point, set(ev)):
+                if realisable_without(b, ch, c.point, set(ev), uedges):
                     bad = ch
                     break
             if bad is None:
-                ctx.inst("M2", b, what, c.span, True, "every value-flow path to the retire executes an unlink first (%d chain(s); unlink events: %s)"
-                         % (len(chains), "; ".join(sorted(set(ev.values())))[:240]))
+                ctx.inst("M2", b, what, c.span, True, "every value-flow path to the retire executes an unlink first (%d chain(s); unlink events: %s%s)"
+                         % (len(chains), "; ".join(sorted(set(ev.values())))[:240], "; false edge of remove_tree_node" if uedges else ""))
             else:
                 org = bad[0]
                 odesc = ("parameter %d" % org[1]) if (isinstance(org, tuple) and org[0] == "arg") else "%s at %s" % (
